@@ -162,13 +162,14 @@ theorem C19_fails_asis_foreign_rollback (c : PercCfg) (hc : c.AllOps ∧ c.rollb
   generalize c.scanSeesLockOnlyKeys = b5
   generalize c.commitChecksRollback = b6
   generalize c.ttlOverflowGuard = b7
+  generalize c.prewriteKeepsOwnLock = b8
   refine ⟨⟨⟨kc, 40, 100, .put, 0⟩, ?_, rfl⟩, ?_, ?_⟩
-  · cases b1 <;> cases b2 <;> cases b3 <;> cases b4 <;> cases b5 <;> cases b6 <;> cases b7 <;> decide
+  · cases b1 <;> cases b2 <;> cases b3 <;> cases b4 <;> cases b5 <;> cases b6 <;> cases b7 <;> cases b8 <;> decide
   · intro r hr
     simp only [wForeign, List.drop_succ_cons, List.drop_zero, List.mem_singleton] at hr
     subst hr
     simp [Req.ends]
-  · cases b1 <;> cases b2 <;> cases b3 <;> cases b4 <;> cases b5 <;> cases b6 <;> cases b7 <;> decide
+  · cases b1 <;> cases b2 <;> cases b3 <;> cases b4 <;> cases b5 <;> cases b6 <;> cases b7 <;> cases b8 <;> decide
 
 /-- `lock.Ts + lock.TTL` wraps: a lock of transaction 60 with TTL `2^64 - 1` ("never expires")
 counts as expired at current ts 61, although `60 + ttl ≤ 61` is false. -/
